@@ -476,6 +476,6 @@ func runC08(c *caseWriter) (string, bool, map[string]int) {
 			}
 		}
 	}
-	return fmt.Sprintf("text level: %d contexts reached by the real contextAfterText (seed texts + %d alphabet steps) x all texts of length <= 1..3 over a 29-symbol alphabet + seed texts with closing tags + grammar-random fragment texts, through contextAfterText and escapeText under recover and a 5 s watchdog (totality, progress, n <= len, invariant), plus the shared correspondence streams; API: %d definition sets (every node kind of the installed parser: break, continue, else-if, else-with, declarations, assignments, comments, trim markers, blocks, direct/mutual/context-changing recursion, failing/empty/undefined callees in text and attribute contexts, malformed HTML) x every pair of their template names executed in sequence, fixed after-failure histories (lookup, clone, New-overwrite, re-parse, execute every handle) and random histories that first make a call fail and then call what reaches it, every history under recover and the watchdog, replayed on the engine model; executions of seed and random malformed HTML with an action inserted at every byte position; non-trivial = the history executes a template / the step leaves the state", false,
+	return fmt.Sprintf("text level: %d contexts reached by the real contextAfterText (seed texts + %d alphabet steps) x all texts of length <= 1..3 over a 29-symbol alphabet + seed texts with closing tags + grammar-random fragment texts, through contextAfterText and escapeText under recover and a 5 s watchdog (totality, progress, n <= len, invariant), plus the shared correspondence streams; API: %d definition sets (every node kind of the installed parser: break, continue, else-if, else-with, declarations, assignments, comments, trim markers, blocks, direct/mutual/context-changing recursion, failing/empty/undefined callees in text and attribute contexts, malformed HTML) x every pair of their template names executed in sequence, fixed after-failure histories (lookup, clone, New-overwrite, re-parse, execute every handle) and random histories that first make a call fail and then call what reaches it, every history under recover and the watchdog, replayed on the engine model; executions of seed and random malformed HTML with an action inserted at every byte position; non-trivial = the history executes a template / the step leaves the state", len(ctxs), depth, len(defs)), false,
 		map[string]int{"watchdog_timeouts": c08Timeouts, "text_level_panics": c08Panics, "definition_sets": len(defs)}
 }
